@@ -410,6 +410,12 @@ _TSCALE = 1
 def _worker_init(modname, tscale=1):
     global _PROP, _TSCALE
     _TSCALE = tscale
+    try:
+        # a worker must not outlive a run that is killed from outside (time limit of the caller): die with the parent
+        import ctypes
+        ctypes.CDLL('libc.so.6', use_errno=True).prctl(1, int(signal.SIGKILL))     # PR_SET_PDEATHSIG
+    except Exception:   # noqa
+        pass
     sys.setrecursionlimit(6000)
     os.environ['PYTHONHASHSEED'] = '0'
     sys.path.insert(0, REPO)
